@@ -78,7 +78,7 @@ NA = {
  "C07": "pure function of two operands: no party, message, state, fault, schedule or entropy for a simulator to own (DESIGN.md §4 C07); operand generation against big integers would be property-based testing, not this technique",
 }
 m={"version":1,
-"setup_cmd":"cd /verif/starsim && ln -sfn /repo repo && CARGO_NET_OFFLINE=true cargo build --release --offline",
+"setup_cmd":"cd /verif && ./check --build",
 "hooks":{"guard":"none","enable":"no source hooks in /repo: the only seam is [patch.crates-io] getrandom = vendor/getrandom in the harness workspace /verif/starsim; /repo sources compile unchanged","baseline_off_cmd":"cd /repo && cargo test --workspace --no-fail-fast --offline","source_commits":[],"add_only":True},
 "engines":[{"name":"starsim","path":"/verif/starsim","serves_properties":sorted(CHECKS),"kind_free_text":"deterministic discrete-event simulator with fault injection; one seeded PRNG decides every delivery, delay, fault, operation and size; per-node seeded OS entropy through a patched getrandom; recorded choice vector = replay file; choice-vector shrinking"}],
 "checks":[],
